@@ -8,21 +8,22 @@ import (
 )
 
 type GenCfg struct {
-	MaxDepth  int  // recursion depth through named records
-	MaxElems  int  // typical container size bound
-	LongProb  int  // 1/LongProb chance of a long string / big array (0 = never)
-	LongLen   int  // length of long strings
-	NoNilDist bool // never mark containers as nil
-	SubTick   bool // allow dates that are not tick aligned / not UTC
-	WildDates bool // also dates whose tick count the format leaves open: before 1970 off the tick grid, outside 1678..2262
-	FullMsg   int  // percent chance that a message has every field set (0 = default mix)
-	Ladder    int  // 1/Ladder chance that a string / byte array / small-element array takes a threshold size
-	LadderMax int  // largest ladder size allowed (0 = all)
-	LadderBig int  // one ladder hit in LadderBig is one of the sizes around the 64 KiB multiples
-	Huge      int  // > 0: 1/Huge chance that ONE string of the value runs to megabytes (1 MiB+1, 3 MiB, 4 MiB+5)
-	Bulky     int  // > 0: the first non-empty array or map of the value gets this many elements, NOT kept small (with LongProb/LongLen: megabytes in one container)
-	MaxNodes  int  // > 0: after this many records the rest of the value is as shallow as its types allow (deep but narrow values)
-	Giant     int  // > 0: one array of fixed-width scalars in Giant has about 2^17 elements
+	MaxDepth   int  // recursion depth through named records
+	MaxElems   int  // typical container size bound
+	LongProb   int  // 1/LongProb chance of a long string / big array (0 = never)
+	LongLen    int  // length of long strings
+	NoNilDist  bool // never mark containers as nil
+	SubTick    bool // allow dates that are not tick aligned / not UTC
+	WildDates  bool // also dates whose tick count the format leaves open: before 1970 off the tick grid, outside 1678..2262
+	FullMsg    int  // percent chance that a message has every field set (0 = default mix)
+	Ladder     int  // 1/Ladder chance that a string / byte array / small-element array takes a threshold size
+	LadderMax  int  // largest ladder size allowed (0 = all)
+	LadderBig  int  // one ladder hit in LadderBig is one of the sizes around the 64 KiB multiples
+	Huge       int  // > 0: 1/Huge chance that ONE string of the value runs to megabytes (1 MiB+1, 3 MiB, 4 MiB+5)
+	Bulky      int  // > 0: the first non-empty array or map of the value gets this many elements, NOT kept small (with LongProb/LongLen: megabytes in one container)
+	MaxNodes   int  // > 0: after this many records the rest of the value is as shallow as its types allow (deep but narrow values)
+	EmptyUnion int  // > 0: percent chance that a union has NO member set (a value Go code can hold; only encoders can be asked about it)
+	Giant      int  // > 0: one array of fixed-width scalars in Giant has about 2^17 elements
 }
 
 // sizeLadder holds lengths around the powers of two where buffers, fast paths and narrow
@@ -318,6 +319,9 @@ func (g *Gen) def(d *schema.Def, budget int) Value {
 		}
 		return v
 	case schema.KUnion:
+		if g.Cfg.EmptyUnion > 0 && r.Chance(g.Cfg.EmptyUnion, 100) {
+			return Value{}
+		}
 		var ok []int
 		for i, b := range d.Branches {
 			if g.min[b.Def.Name] <= budget-1 {
